@@ -37,6 +37,8 @@ M=[
  ('c03-no-arity-check','C03','extensions/omniv21/transform/invokeCustomFunc.go',"\tif (fnType.IsVariadic() && numArgs < numIn-1) || (!fnType.IsVariadic() && numArgs != numIn) {","\tif false {"),
  ('c03-json-nil-cursor','C03','idr/jsonreader.go',"\t\tif sp.cur == nil {","\t\tif sp.cur == nil && false {"),
  ('c15-checksum-uses-id','C15','extensions/omniv21/ingester.go',"\thash, _ := customfuncs.UUIDv3(nil, idr.JSONify2(rr.node))","\thash, _ := customfuncs.UUIDv3(nil, idr.JSONify2(rr.node)+string(rune(rr.node.ID%7+65)))"),
+ ('c20r-nil-arg-as-empty-string','C20','extensions/omniv21/transform/invokeCustomFunc.go',"\t\t\targVals = append(argVals, reflect.Zero(argType))\n","\t\t\tif argType.Kind() == reflect.Interface {\n\t\t\t\targVals = append(argVals, reflect.ValueOf(\"\"))\n\t\t\t} else {\n\t\t\t\targVals = append(argVals, reflect.Zero(argType))\n\t\t\t}\n"),
+ ('c20r-node-of-wrong-cursor','C20','extensions/omniv21/transform/invokeCustomFunc.go',"\t\targVals = append(argVals, reflect.ValueOf(n))\n","\t\tfor n.Parent != nil && n.Parent.Parent != nil {\n\t\t\tn = n.Parent\n\t\t}\n\t\targVals = append(argVals, reflect.ValueOf(n))\n"),
 ]
 def sh(cmd, **kw):
     return subprocess.run(cmd, shell=True, stdout=subprocess.PIPE, stderr=subprocess.STDOUT, text=True, **kw)
